@@ -2,10 +2,451 @@
 From Verif Require Import Base.GoInt Thrift.Model Thrift.Spec.
 From Coq Require Import ZifyBool.
 Open Scope Z_scope.
+Local Ltac Zify.zify_post_hook ::= Z.div_mod_to_equations.
 
+(* ---------- C13: the unmodified specifications are not met (two witnesses) ---------- *)
 Lemma t_conforms_refuted : t_conforms_refuted_statement.
-Admitted.
+Proof.
+  split.
+  - exists (ThStruct [TField 1 0 ThI32]), (TvStruct [TvInt 7]).
+    split; [reflexivity|]. split; [reflexivity|]. vm_compute. discriminate.
+  - exists (ThStruct [TField 1 0 ThF64]), (TvStruct [TvInt 1]).
+    split; [reflexivity|]. split; [reflexivity|]. vm_compute. discriminate.
+Qed.
+
+(* ---------- C13 partial conformance ---------- *)
+Section TtyInd.
+  Variable P : tty -> Prop.
+  Hypothesis Hbase : forall t, (match t with ThList _ | ThSet _ | ThMap _ _ | ThStruct _ | ThPtr _ => False | _ => True end) -> P t.
+  Hypothesis HList : forall t, P t -> P (ThList t).
+  Hypothesis HSet : forall t, P t -> P (ThSet t).
+  Hypothesis HMap : forall k v, P k -> P v -> P (ThMap k v).
+  Hypothesis HPtr : forall t, P t -> P (ThPtr t).
+  Hypothesis HStruct : forall fs, Forall (fun f => P (fld_ty f)) fs -> P (ThStruct fs).
+  Fixpoint tty_ind2 (t : tty) : P t :=
+    match t with
+    | ThList t' => HList t' (tty_ind2 t')
+    | ThSet t' => HSet t' (tty_ind2 t')
+    | ThMap k v => HMap k v (tty_ind2 k) (tty_ind2 v)
+    | ThPtr t' => HPtr t' (tty_ind2 t')
+    | ThStruct fs =>
+        HStruct fs ((fix go (fs : list tfield) : Forall (fun f => P (fld_ty f)) fs :=
+                       match fs with
+                       | [] => Forall_nil _
+                       | f :: r => Forall_cons f (match f return P (fld_ty f) with TField _ _ ft => tty_ind2 ft end) (go r)
+                       end) fs)
+    | ThBool => Hbase ThBool I | ThI8 => Hbase ThI8 I | ThI16 => Hbase ThI16 I | ThI32 => Hbase ThI32 I
+    | ThI64 => Hbase ThI64 I | ThF64 => Hbase ThF64 I | ThStr => Hbase ThStr I | ThBytes => Hbase ThBytes I
+    end.
+End TtyInd.
+
+Definition goL (f : tval -> bytes) := fix go (es : list tval) : bytes := match es with [] => [] | x :: r => f x ++ go r end.
+Definition goM (f g : tval -> bytes) :=
+  fix go (es : list (tval * tval)) : bytes := match es with [] => [] | (k, x) :: r => f k ++ g x ++ go r end.
+Definition mkb (body : tfield -> tval -> bytes) :=
+  fix mk (fs : list tfield) (vs : list tval) : list (tfield * (tval * bytes)) :=
+    match fs, vs with f :: fr, x :: vr => (f, (x, body f x)) :: mk fr vr | _, _ => [] end.
+Definition body_m (p : proto) (f : tfield) (x : tval) : bytes :=
+  match f with TField _ fl ft =>
+    if has_flag fl f_enum then
+      match ft, x with
+      | (ThI8 | ThI16 | ThI32 | ThI64), TvInt z => w_i32 p (s32 z)
+      | _, _ => enc p ft x
+      end
+    else enc p ft x end.
+Definition body_s (p : proto) (f : tfield) (x : tval) : bytes :=
+  match f with TField _ fl ft =>
+    if has_flag fl f_enum then (match x with TvInt z => s_i32 p z | _ => [] end) else spec_enc pkg_dev p ft x end.
+Definition skipc (f : tfield) (x : tval) : bool :=
+  match x with TvPtr None => true | _ => false end || (negb (has_flag (fld_flags f) f_required) && is_zero_t (fld_ty f) x).
+Definition go_m (p : proto) :=
+  fix go (l : list (tfield * (tval * bytes))) (last : Z) : bytes :=
+    match l with
+    | [] => w_field p 0 c_STOP
+    | (f, (x, body)) :: r =>
+        if skipc f x then go r last else
+        let ty := type_of (fld_ty f) in
+        let delta := s16 (fld_id f - last) in
+        let wid := match p with PCompact => if delta <=? 15 then delta else fld_id f | PBinary => fld_id f end in
+        let coalesce := match p with PCompact => ty =? c_BOOL | PBinary => false end in
+        let wty := if coalesce && deref_bool x then c_TRUE else ty in
+        w_field p wid wty ++ (if coalesce then [] else body) ++ go r (fld_id f)
+    end.
+Definition go_s (p : proto) :=
+  fix go (l : list (tfield * (tval * bytes))) (last : Z) : bytes :=
+    match l with
+    | [] => [0] ++ (match p with PBinary => [0; 0] | PCompact => [] end)
+    | (f, (x, body)) :: r =>
+        if skipc f x then go r last else
+        match p with
+        | PBinary => [code_of pkg_dev p (fld_ty f)] ++ be_bytes 2 (fld_id f) ++ body ++ go r (fld_id f)
+        | PCompact =>
+            let isbool := spec_code PCompact (fld_ty f) =? 2 in
+            let code := if isbool then (if deref_bool x then 1 else 2) else spec_code PCompact (fld_ty f) in
+            let delta := fld_id f - last in
+            (if (0 <? delta) && (delta <=? 15) then [delta * 16 + code] else [code] ++ uvarint (zz64 (fld_id f)))
+            ++ (if isbool then [] else body) ++ go r (fld_id f)
+        end
+    end.
+
+Lemma enc_ptr p t o : enc p (ThPtr t) (TvPtr o) = match o with Some x => enc p t x | None => enc p t (zero_of t) end.
+Proof. reflexivity. Qed.
+Lemma senc_ptr p t o : spec_enc pkg_dev p (ThPtr t) (TvPtr o) = match o with Some x => spec_enc pkg_dev p t x | None => spec_enc pkg_dev p t (zero_of t) end.
+Proof. destruct o; reflexivity. Qed.
+Lemma enc_list p et nn es : enc p (ThList et) (TvList nn es) = w_list p (len es) (type_of et) ++ goL (enc p et) es.
+Proof. reflexivity. Qed.
+Lemma senc_list p et nn es : spec_enc pkg_dev p (ThList et) (TvList nn es) = s_list_header p (code_of pkg_dev p et) (len es) ++ goL (spec_enc pkg_dev p et) es.
+Proof. reflexivity. Qed.
+Lemma enc_set p et nn es : enc p (ThSet et) (TvSet nn es) = w_list p (len es) (type_of et) ++ goL (enc p et) es.
+Proof. reflexivity. Qed.
+Lemma senc_set p et nn es : spec_enc pkg_dev p (ThSet et) (TvSet nn es) = s_list_header p (code_of pkg_dev p et) (len es) ++ goL (spec_enc pkg_dev p et) es.
+Proof. reflexivity. Qed.
+Lemma enc_map p kt vt nn es : enc p (ThMap kt vt) (TvMap nn es) = w_map p (len es) (type_of kt) (type_of vt) ++ goM (enc p kt) (enc p vt) es.
+Proof. reflexivity. Qed.
+Lemma senc_map p kt vt nn es : spec_enc pkg_dev p (ThMap kt vt) (TvMap nn es) =
+  (match p with
+   | PBinary => [code_of pkg_dev p kt; code_of pkg_dev p vt] ++ be_bytes 4 (len es)
+   | PCompact => uvarint (len es) ++ (if len es =? 0 then [] else [code_of pkg_dev p kt * 16 + code_of pkg_dev p vt])
+   end) ++ goM (spec_enc pkg_dev p kt) (spec_enc pkg_dev p vt) es.
+Proof. reflexivity. Qed.
+Lemma enc_struct p fs vs : enc p (ThStruct fs) (TvStruct vs) = go_m p (sort_by_id (mkb (body_m p) fs vs)) 0.
+Proof. reflexivity. Qed.
+Lemma senc_struct p fs vs : spec_enc pkg_dev p (ThStruct fs) (TvStruct vs) = go_s p (sort_by_id (mkb (body_s p) fs vs)) 0.
+Proof. reflexivity. Qed.
+
+(* --- arithmetic leaves --- *)
+Lemma w8_small x : 0 <= x < 256 -> w8 x = x.
+Proof. intros; unfold w8; apply Z.mod_small; lia. Qed.
+Lemma w16_small x : 0 <= x < 2 ^ 16 -> w16 x = x.
+Proof. intros; unfold w16; apply Z.mod_small; lia. Qed.
+Lemma w32_small x : 0 <= x < 2 ^ 32 -> w32 x = x.
+Proof. intros; unfold w32; apply Z.mod_small; lia. Qed.
+Lemma s32_small z : - 2 ^ 31 <= z < 2 ^ 31 -> s32 z = z.
+Proof. intros; unfold s32, w32; cbv zeta. destruct (Z.ltb_spec (z mod 2 ^ 32) (2 ^ 31)); lia. Qed.
+Lemma s16_small z : - 2 ^ 15 <= z < 2 ^ 15 -> s16 z = z.
+Proof. intros; unfold s16, w16; cbv zeta. destruct (Z.ltb_spec (z mod 2 ^ 16) (2 ^ 15)); lia. Qed.
+Lemma lor_nib n c : 0 <= n <= 15 -> 0 <= c <= 15 -> Z.lor (w8 (n * 16)) (w8 c) = n * 16 + c.
+Proof.
+  intros Hn Hc.
+  assert (H : forallb (fun n => forallb (fun c => Z.lor (w8 (n * 16)) (w8 c) =? n * 16 + c) (map Z.of_nat (seq 0 16)))
+                (map Z.of_nat (seq 0 16)) = true) by (vm_compute; reflexivity).
+  rewrite forallb_forall in H.
+  assert (In16 : forall k, 0 <= k <= 15 -> In k (map Z.of_nat (seq 0 16))).
+  { intros k Hk. apply in_map_iff. exists (Z.to_nat k). split; [lia | apply in_seq; lia]. }
+  specialize (H n (In16 n Hn)). rewrite forallb_forall in H. specialize (H c (In16 c Hc)). lia.
+Qed.
+Lemma len_nonneg {A} (l : list A) : 0 <= len l.
+Proof. unfold len; lia. Qed.
+
+Lemma type_of_range t : 2 <= type_of t <= 12.
+Proof. induction t; simpl; unfold c_BOOL, c_I8, c_I16, c_I32, c_I64, c_DOUBLE, c_BINARY, c_LIST, c_SET, c_MAP, c_STRUCT; lia. Qed.
+Lemma spec_code_compact t : spec_code PCompact t = type_of t.
+Proof. induction t; simpl; auto. Qed.
+Lemma code_of_pkg p t : code_of pkg_dev p t = type_of t.
+Proof. destruct p; simpl; apply spec_code_compact. Qed.
+
+Lemma hdr_list p n t : 0 <= n < tlim -> w_list p n (type_of t) = s_list_header p (code_of pkg_dev p t) n.
+Proof.
+  intros Hn. unfold tlim in Hn. rewrite code_of_pkg. pose proof (type_of_range t) as Ht.
+  destruct p; unfold w_list, s_list_header.
+  - rewrite w8_small, w32_small by lia. reflexivity.
+  - destruct (Z.leb_spec n 14); destruct (Z.ltb_spec n 15); try lia.
+    + rewrite lor_nib by lia. reflexivity.
+    + change 240 with (w8 (15 * 16)) at 1. rewrite lor_nib by lia. reflexivity.
+Qed.
+Lemma hdr_map p n k v : 0 <= n < tlim ->
+  w_map p n (type_of k) (type_of v) =
+  match p with
+  | PBinary => [code_of pkg_dev p k; code_of pkg_dev p v] ++ be_bytes 4 n
+  | PCompact => uvarint n ++ (if n =? 0 then [] else [code_of pkg_dev p k * 16 + code_of pkg_dev p v])
+  end.
+Proof.
+  intros Hn. unfold tlim in Hn. rewrite !code_of_pkg.
+  pose proof (type_of_range k) as Hk. pose proof (type_of_range v) as Hv.
+  destruct p; unfold w_map.
+  - rewrite !w8_small, w32_small by lia. reflexivity.
+  - rewrite lor_nib by lia. reflexivity.
+Qed.
+
+Lemma goL_ext (f g : tval -> bytes) es : Forall (fun x => f x = g x) es -> goL f es = goL g es.
+Proof. induction 1; simpl; congruence. Qed.
+Lemma goM_ext (f f' g g' : tval -> bytes) es :
+  Forall (fun kx => f (fst kx) = f' (fst kx) /\ g (snd kx) = g' (snd kx)) es -> goM f g es = goM f' g' es.
+Proof. induction 1 as [|[k x] r [H1 H2] _ IH]; simpl in *; congruence. Qed.
+
+(* --- the hypothesis on values: well-formed, or the zero value written for a nil pointer --- *)
+Definition Pv (t : tty) (v : tval) : Prop := tval_wf t v = true \/ v = zero_of t.
+
+Definition wfL (et : tty) := fix go (es : list tval) : bool :=
+  match es with [] => true | x :: r => tval_wf et x && negb (match x with TvPtr None => true | _ => false end) && go r end.
+Definition wfK (kt : tty) := fix go (ks : list tval) : bool :=
+  match ks with [] => true | x :: r => tval_wf kt x && negb (existsb (tval_eqb x) r) && go r end.
+Definition wfM (kt vt : tty) := fix go (es : list (tval * tval)) : bool :=
+  match es with
+  | [] => true
+  | (k, x) :: r => tval_wf kt k && tval_wf vt x && negb (match x with TvPtr None => true | _ => false end) &&
+                   negb (existsb (fun kv => tval_eqb k (fst kv)) r) && go r
+  end.
+Definition wfS := fix go (fs : list tfield) (vs : list tval) : bool :=
+  match fs, vs with
+  | [], [] => true
+  | TField _ fl ft :: fr, x :: vr =>
+      tval_wf ft x && negb (has_flag fl f_required && (match x with TvPtr None => true | _ => false end)) && go fr vr
+  | _, _ => false
+  end.
+Definition zerosF := fix go (fs : list tfield) : list tval := match fs with [] => [] | TField _ _ ft :: r => zero_of ft :: go r end.
+Definition fok := fix go (fs : list tfield) : bool :=
+  match fs with
+  | [] => true
+  | TField id fl ft :: r =>
+      (1 <=? id) && (id <? 2 ^ 15) && ty_ok ft &&
+      negb (has_flag fl f_required && has_flag fl f_optional) &&
+      (negb (has_flag fl f_enum) || (match ft with ThI32 => true | _ => false end)) &&
+      ((fl =? 0) || (fl =? f_required) || (fl =? f_optional) || (fl =? f_enum) || (fl =? f_enum + f_required) || (fl =? f_enum + f_optional)) &&
+      go r
+  end.
+Lemma wf_list et nn es : tval_wf (ThList et) (TvList nn es) = (len es <? tlim) && (nn || (len es =? 0)) && wfL et es.
+Proof. reflexivity. Qed.
+Lemma wf_set et nn es : tval_wf (ThSet et) (TvSet nn es) = (len es <? tlim) && (nn || (len es =? 0)) && wfK et es.
+Proof. reflexivity. Qed.
+Lemma wf_map kt vt nn es : tval_wf (ThMap kt vt) (TvMap nn es) = (len es <? tlim) && (nn || (len es =? 0)) && wfM kt vt es.
+Proof. reflexivity. Qed.
+Lemma wf_struct fs vs : tval_wf (ThStruct fs) (TvStruct vs) = wfS fs vs.
+Proof. reflexivity. Qed.
+Lemma zero_struct fs : zero_of (ThStruct fs) = TvStruct (zerosF fs).
+Proof. reflexivity. Qed.
+Lemma ok_struct fs : ty_ok (ThStruct fs) = distinctZ (map fld_id fs) && fok fs.
+Proof. reflexivity. Qed.
+
+Lemma wfL_forall et es : wfL et es = true -> Forall (fun x => Pv et x) es.
+Proof.
+  induction es as [|x r IH]; simpl; intros H; constructor.
+  - left. destruct (tval_wf et x); [reflexivity | discriminate].
+  - apply IH. destruct (wfL et r); [reflexivity|]. rewrite Bool.andb_false_r in H. discriminate.
+Qed.
+Lemma wfK_forall et es : wfK et es = true -> Forall (fun x => Pv et x) es.
+Proof.
+  induction es as [|x r IH]; simpl; intros H; constructor.
+  - left. destruct (tval_wf et x); [reflexivity | discriminate].
+  - apply IH. destruct (wfK et r); [reflexivity|]. rewrite Bool.andb_false_r in H. discriminate.
+Qed.
+Lemma wfM_forall kt vt es : wfM kt vt es = true -> Forall (fun kx => Pv kt (fst kx) /\ Pv vt (snd kx)) es.
+Proof.
+  induction es as [|[k x] r IH]; simpl; intros H; constructor.
+  - simpl. destruct (tval_wf kt k) eqn:E1; [|discriminate]. destruct (tval_wf vt x) eqn:E2; [|discriminate].
+    split; left; assumption.
+  - apply IH. destruct (wfM kt vt r); [reflexivity|]. rewrite Bool.andb_false_r in H. discriminate.
+Qed.
+Lemma Pv_list et nn es : Pv (ThList et) (TvList nn es) -> 0 <= len es < tlim /\ Forall (fun x => Pv et x) es.
+Proof.
+  intros [H|H].
+  - rewrite wf_list in H. apply andb_prop in H as [H H2]. apply andb_prop in H as [H _].
+    split; [pose proof (len_nonneg es); lia | apply wfL_forall; assumption].
+  - simpl in H. injection H as _ ->. split; [vm_compute; split; congruence | constructor].
+Qed.
+Lemma Pv_set et nn es : Pv (ThSet et) (TvSet nn es) -> 0 <= len es < tlim /\ Forall (fun x => Pv et x) es.
+Proof.
+  intros [H|H].
+  - rewrite wf_set in H. apply andb_prop in H as [H H2]. apply andb_prop in H as [H _].
+    split; [pose proof (len_nonneg es); lia | apply wfK_forall; assumption].
+  - simpl in H. injection H as _ ->. split; [vm_compute; split; congruence | constructor].
+Qed.
+Lemma Pv_map kt vt nn es : Pv (ThMap kt vt) (TvMap nn es) ->
+  0 <= len es < tlim /\ Forall (fun kx => Pv kt (fst kx) /\ Pv vt (snd kx)) es.
+Proof.
+  intros [H|H].
+  - rewrite wf_map in H. apply andb_prop in H as [H H2]. apply andb_prop in H as [H _].
+    split; [pose proof (len_nonneg es); lia | apply wfM_forall; assumption].
+  - simpl in H. injection H as _ ->. split; [vm_compute; split; congruence | constructor].
+Qed.
+Lemma Pv_struct fs vs : Pv (ThStruct fs) (TvStruct vs) -> Forall2 (fun f x => Pv (fld_ty f) x) fs vs.
+Proof.
+  intros [H|H].
+  - rewrite wf_struct in H. revert vs H.
+    induction fs as [|[id fl ft] fr IH]; intros [|x vr] H; simpl in H; try discriminate; constructor.
+    + simpl. left. destruct (tval_wf ft x); [reflexivity | discriminate].
+    + apply IH. destruct (wfS fr vr); [reflexivity|]. rewrite Bool.andb_false_r in H. discriminate.
+  - rewrite zero_struct in H. injection H as ->.
+    induction fs as [|[id fl ft] fr IH]; simpl; constructor; [right; reflexivity | assumption].
+Qed.
+Lemma is_key_ok t : is_key_ty t = true -> ty_ok t = true.
+Proof. destruct t; simpl; congruence. Qed.
+
+(* --- sorting: ids come out strictly ascending --- *)
+Definition ent := (tfield * (tval * bytes))%type.
+Definition eid (e : ent) : Z := fld_id (fst e).
+Fixpoint asc (lo : Z) (l : list ent) : Prop :=
+  match l with [] => True | e :: r => lo < eid e < 2 ^ 15 /\ asc (eid e) r end.
+Lemma asc_mono l : forall a b, b <= a -> asc a l -> asc b l.
+Proof. destruct l; simpl; intros; [trivial|]. intuition lia. Qed.
+Lemma insert_asc : forall (l : list ent) lo x, asc lo l -> lo < eid x < 2 ^ 15 ->
+  (forall y, In y l -> eid y <> eid x) -> asc lo (insert_by_id x l).
+Proof.
+  induction l as [|y r IH]; intros lo x Ha Hx Hne; simpl.
+  - auto.
+  - simpl in Ha. destruct Ha as [Hy Hr]. fold (eid y) (eid x).
+    assert (eid y <> eid x) by (apply Hne; left; reflexivity).
+    destruct (Z.leb_spec (eid y) (eid x)); simpl.
+    + split; [assumption|]. apply IH; [assumption | lia | intros; apply Hne; right; assumption].
+    + split; [assumption|]. split; [lia | assumption].
+Qed.
+Lemma insert_in : forall (l : list ent) x y, In y (insert_by_id x l) -> y = x \/ In y l.
+Proof.
+  induction l as [|z r IH]; simpl; intros x y H.
+  - destruct H; auto.
+  - destruct (fld_id (fst z) <=? fld_id (fst x)); simpl in H.
+    + destruct H as [H|H]; [auto|]. apply IH in H. tauto.
+    + destruct H as [H|H]; auto.
+Qed.
+Lemma sort_asc : forall (l acc : list ent), asc 0 acc -> NoDup (map eid l) ->
+  (forall x, In x l -> 0 < eid x < 2 ^ 15) ->
+  (forall x y, In x l -> In y acc -> eid y <> eid x) ->
+  asc 0 (fold_left (fun acc x => insert_by_id x acc) l acc).
+Proof.
+  induction l as [|a l IH]; intros acc Ha Hnd Hr Hne; simpl; [assumption|].
+  inversion Hnd as [|? ? Hnin Hnd']; subst.
+  apply IH.
+  - apply insert_asc; [assumption | apply Hr; left; reflexivity | intros; apply Hne; [left; reflexivity | assumption]].
+  - assumption.
+  - intros; apply Hr; right; assumption.
+  - intros x y Hx Hy. apply insert_in in Hy as [->|Hy].
+    + intros E. apply Hnin. rewrite E. apply in_map; assumption.
+    + apply Hne; [right|]; assumption.
+Qed.
+Lemma distinct_nodup l : distinctZ l = true -> NoDup l.
+Proof.
+  induction l as [|x r IH]; simpl; intros H; constructor.
+  - intros Hin. destruct (existsb (Z.eqb x) r) eqn:E; [discriminate|].
+    assert (existsb (Z.eqb x) r = true) by (apply existsb_exists; exists x; split; [assumption | apply Z.eqb_refl]).
+    congruence.
+  - apply IH. destruct (distinctZ r); [reflexivity|]. rewrite Bool.andb_false_r in H. discriminate.
+Qed.
+Lemma mkb_in body : forall fs vs e, In e (mkb body fs vs) -> In (fst e) fs.
+Proof.
+  induction fs as [|f fr IH]; intros [|x vr] e H; simpl in H; try contradiction.
+  destruct H as [<-|H]; [left; reflexivity | right; eapply IH; eassumption].
+Qed.
+Lemma mkb_nodup body : forall fs vs, NoDup (map fld_id fs) -> NoDup (map eid (mkb body fs vs)).
+Proof.
+  induction fs as [|f fr IH]; intros [|x vr] H; simpl; try constructor.
+  - inversion H as [|? ? Hn _]; subst. intros Hin. apply Hn.
+    apply in_map_iff in Hin as [e [He Hin]]. apply mkb_in in Hin. unfold eid in He. simpl in He. rewrite <- He.
+    apply in_map; assumption.
+  - apply IH. inversion H; assumption.
+Qed.
+Lemma fok_range : forall fs f, fok fs = true -> In f fs -> 1 <= fld_id f < 2 ^ 15.
+Proof.
+  induction fs as [|[id fl ft] fr IH]; intros f H Hin; [contradiction|].
+  simpl in H. destruct Hin as [<-|Hin].
+  - simpl. lia.
+  - apply IH; [|assumption]. destruct (fok fr); [reflexivity|]. rewrite Bool.andb_false_r in H. discriminate.
+Qed.
+Lemma sorted_asc body fs vs : ty_ok (ThStruct fs) = true -> asc 0 (sort_by_id (mkb body fs vs)).
+Proof.
+  rewrite ok_struct. intros H. apply andb_prop in H as [Hd Hf].
+  unfold sort_by_id. apply sort_asc.
+  - exact I.
+  - apply mkb_nodup. apply distinct_nodup; assumption.
+  - intros x Hx. apply mkb_in in Hx. pose proof (fok_range fs (fst x) Hf Hx). unfold eid. lia.
+  - intros x y _ [].
+Qed.
+
+(* --- the field loop --- *)
+Lemma go_eq p : forall l last, 0 <= last -> asc last l -> go_m p l last = go_s p l last.
+Proof.
+  induction l as [|[f [x body]] r IH]; intros last Hl Ha.
+  - destruct p; reflexivity.
+  - destruct Ha as [Hid Hr]. unfold eid in Hid, Hr. cbn [fst] in Hid, Hr.
+    change (go_m p ((f, (x, body)) :: r) last) with
+      (if skipc f x then go_m p r last else
+        let ty := type_of (fld_ty f) in
+        let delta := s16 (fld_id f - last) in
+        let wid := match p with PCompact => if delta <=? 15 then delta else fld_id f | PBinary => fld_id f end in
+        let coalesce := match p with PCompact => ty =? c_BOOL | PBinary => false end in
+        let wty := if coalesce && deref_bool x then c_TRUE else ty in
+        w_field p wid wty ++ (if coalesce then [] else body) ++ go_m p r (fld_id f)).
+    change (go_s p ((f, (x, body)) :: r) last) with
+      (if skipc f x then go_s p r last else
+        match p with
+        | PBinary => [code_of pkg_dev p (fld_ty f)] ++ be_bytes 2 (fld_id f) ++ body ++ go_s p r (fld_id f)
+        | PCompact =>
+            let isbool := spec_code PCompact (fld_ty f) =? 2 in
+            let code := if isbool then (if deref_bool x then 1 else 2) else spec_code PCompact (fld_ty f) in
+            let delta := fld_id f - last in
+            (if (0 <? delta) && (delta <=? 15) then [delta * 16 + code] else [code] ++ uvarint (zz64 (fld_id f)))
+            ++ (if isbool then [] else body) ++ go_s p r (fld_id f)
+        end).
+    destruct (skipc f x).
+    + apply IH; [assumption|]. apply asc_mono with (a := fld_id f); [lia | assumption].
+    + rewrite <- (IH (fld_id f)) by (assumption || lia). cbv zeta.
+      pose proof (type_of_range (fld_ty f)) as Ht.
+      destruct p.
+      * rewrite code_of_pkg. unfold w_field. cbn [andb]. rewrite w8_small, w16_small by lia. simpl. reflexivity.
+      * rewrite spec_code_compact. rewrite s16_small by lia. unfold c_BOOL, c_TRUE.
+        set (ty := type_of (fld_ty f)) in *. set (d := fld_id f - last).
+        assert (Hw : (if (ty =? 2) && deref_bool x then 1 else ty) = (if ty =? 2 then if deref_bool x then 1 else 2 else ty)).
+        { destruct (Z.eqb_spec ty 2); destruct (deref_bool x); simpl; lia. }
+        rewrite Hw. set (code := if ty =? 2 then if deref_bool x then 1 else 2 else ty).
+        assert (Hc : 1 <= code <= 12) by (unfold code; destruct (ty =? 2); [destruct (deref_bool x)|]; lia).
+        f_equal. unfold w_field, c_STOP.
+        destruct (Z.eqb_spec code 0); [lia|].
+        destruct (Z.leb_spec d 15).
+        -- destruct (Z.leb_spec d 15); [|lia]. destruct (Z.ltb_spec 0 d); [|unfold d in *; lia]. simpl.
+           rewrite lor_nib by (unfold d in *; lia). reflexivity.
+        -- destruct (Z.leb_spec (fld_id f) 15); [unfold d in *; lia|].
+           rewrite Bool.andb_false_r. rewrite w8_small by lia. reflexivity.
+Qed.
+
+Lemma mk_eq p : forall fs vs,
+  Forall (fun f => forall p v, ty_ok (fld_ty f) = true -> Pv (fld_ty f) v -> enc p (fld_ty f) v = spec_enc pkg_dev p (fld_ty f) v) fs ->
+  fok fs = true -> Forall2 (fun f x => Pv (fld_ty f) x) fs vs ->
+  mkb (body_m p) fs vs = mkb (body_s p) fs vs.
+Proof.
+  intros fs vs HI Hf H2. induction H2 as [|f x fr vr Hx _ IH]; [reflexivity|].
+  inversion HI as [|? ? Hfi HI']; subst.
+  destruct f as [id fl ft]. simpl in Hf, Hx, Hfi.
+  simpl. f_equal.
+  - f_equal. f_equal.
+    assert (Hok : ty_ok ft = true) by (destruct (ty_ok ft); [reflexivity | rewrite !Bool.andb_false_r in Hf; discriminate]).
+    destruct (has_flag fl f_enum) eqn:E.
+    + assert (Hi : (match ft with ThI32 => true | _ => false end) = true).
+      { destruct ft; try reflexivity; simpl in Hf; rewrite !Bool.andb_false_r in Hf; discriminate. }
+      destruct ft; try discriminate. destruct x; try reflexivity.
+      assert (s32 z = z) as ->.
+      { destruct Hx as [Hx|Hx]; [simpl in Hx; apply s32_small; lia | injection Hx as ->; reflexivity]. }
+      destruct p; reflexivity.
+    + apply Hfi; assumption.
+  - apply IH; [assumption|]. destruct (fok fr); [reflexivity | rewrite Bool.andb_false_r in Hf; discriminate].
+Qed.
+
+Lemma conforms_gen : forall t p v, ty_ok t = true -> Pv t v -> enc p t v = spec_enc pkg_dev p t v.
+Proof.
+  induction t using tty_ind2; intros p v Hok Hv.
+  - destruct t; try contradiction; destruct v; try reflexivity; destruct p; reflexivity.
+  - (* list *) destruct v; try reflexivity. apply Pv_list in Hv as [Hn Hall].
+    rewrite enc_list, senc_list, hdr_list by assumption. f_equal. apply goL_ext.
+    eapply Forall_impl; [|exact Hall]. intros x Hx. apply IHt; assumption.
+  - (* set *) destruct v; try reflexivity. apply Pv_set in Hv as [Hn Hall].
+    rewrite enc_set, senc_set, hdr_list by assumption. f_equal. apply goL_ext.
+    eapply Forall_impl; [|exact Hall]. intros x Hx. apply IHt; [apply is_key_ok|]; assumption.
+  - (* map *) destruct v; try reflexivity. apply Pv_map in Hv as [Hn Hall].
+    simpl in Hok. apply andb_prop in Hok as [Hok _]. apply andb_prop in Hok as [Hk Hvt]. apply is_key_ok in Hk.
+    rewrite enc_map, senc_map, hdr_map by assumption. f_equal. apply goM_ext.
+    eapply Forall_impl; [|exact Hall]. intros [k x] [H1 H2]. split; [apply IHt1 | apply IHt2]; assumption.
+  - (* ptr *) destruct v; try reflexivity. rewrite enc_ptr, senc_ptr.
+    simpl in Hok. apply andb_prop in Hok as [Hok _].
+    destruct o as [x|].
+    + apply IHt; [assumption|]. destruct Hv as [Hv|Hv]; [left; exact Hv | discriminate].
+    + apply IHt; [assumption | right; reflexivity].
+  - (* struct *) destruct v; try reflexivity.
+    rewrite enc_struct, senc_struct.
+    pose proof Hok as Hok'. rewrite ok_struct in Hok'. apply andb_prop in Hok' as [_ Hf].
+    rewrite (mk_eq p fs vs H Hf (Pv_struct _ _ Hv)).
+    apply go_eq; [lia | apply sorted_asc; assumption].
+Qed.
+
 Lemma t_conforms_partial : t_conforms_partial_statement.
-Admitted.
+Proof. intros p t v Hok Hwf. unfold TMarshal. apply conforms_gen; [assumption | left; assumption]. Qed.
+
 Lemma t_decode_total : t_decode_total_statement.
 Admitted.
